@@ -123,7 +123,9 @@ pub fn build(abi: &Abi, rng: &mut Rng, opname: &str, bits_on: &[String], want_er
             names.push(rname(rng, 2000));
         }
         "payload" => {
-            let n = *rng.pick(&[0usize, 1, 2, 7, 8, 9, 100, 4095, 4096, 4097, 65536, 131072]);
+            // up to max_write (1 MiB, what INIT advertises) and its neighbourhood
+            let n = *rng.pick(&[0usize, 1, 2, 7, 8, 9, 100, 4095, 4096, 4097, 65536, 131072, (1 << 20) - 81, (1 << 20) - 41,
+                                (1 << 20) - 40, (1 << 20) - 39, (1 << 20) - 1, 1 << 20]);
             payload = vec![0u8; n];
             rng.fill(&mut payload);
         }
@@ -799,8 +801,8 @@ pub fn concretise(abi: &Abi, rng: &mut Rng, c: &Value) -> Option<ClassReq> {
         }
         "ltst" => rng.range(40, 40 + ssize as u64 - 1),
         "lt40" => rng.below(40),
-        "gt" => rng.range(bytes.len() as u64 + 1, MAXB),
-        _ => rng.range(MAXB + 1, u32::MAX as u64),
+        "gt" => if rng.chance(1, 3) { MAXB } else { rng.range(bytes.len() as u64 + 1, MAXB) },
+        _ => if rng.chance(1, 3) { MAXB + 1 } else { rng.range(MAXB + 1, u32::MAX as u64) },
     };
     let mut h = Vals::new();
     h.insert("len".into(), len);
